@@ -27,6 +27,22 @@ theorem issue_cases (w : World V) (cl : Client V) (req : CallReq V) :
       refine ⟨{ r0 with serial := cl.nextSerial }, rfl, ?_⟩
       simp [hf, issuedClient]
 
+/-- the same with the provenance of the record -/
+theorem issue_cases' (w : World V) (cl : Client V) (req : CallReq V) :
+    (issue w cl req).1 = cl ∨
+    ∃ r0 : CallRec V, proxyResolve req = .ok r0 ∧
+      (issue w cl req).1 = issuedClient cl { r0 with serial := cl.nextSerial } := by
+  unfold issue
+  cases hp : proxyResolve req with
+  | error e => left; rfl
+  | ok r0 =>
+    dsimp only
+    by_cases hf : (if r0.sig = "" then false else (w.encErr r0.sig r0.args).isSome) = true
+    · left; simp [hf]
+    · right
+      refine ⟨r0, rfl, ?_⟩
+      simp [hf, issuedClient]
+
 section
 variable {w : World V} {net : Net V} {c : Nat} {r : CallRec V}
 
